@@ -259,6 +259,8 @@ def expect_params(params, value, trig=None):
         elif t == "length-key":
             if given:
                 out[p.name] = v
+                if isinstance(v, int) and not isinstance(v, bool) and not isinstance(p.dop.compu, D.Identical):
+                    out[p.name] = _canon_simple(p.dop, v)       # a key behind a compu method comes back as the length it can express
             else:
                 us = V.users_of_key(params, p.name)
                 if not us:
@@ -266,9 +268,11 @@ def expect_params(params, value, trig=None):
                 u = us[0]
                 uv = value.get(u.name, u.default)
                 try:
-                    out[p.name] = V.to_physical(p.dop, V.derived_length_key(u.dop.dct, V.to_internal(u.dop, uv)))
+                    out[p.name] = V.key_physical(p.dop, V.derived_length_key(u.dop.dct, V.to_internal(u.dop, uv)))
                 except Exception:  # noqa
                     raise Unpredictable("derived length key")
+                if out[p.name] is None:
+                    raise Unpredictable("derived length key not expressible")
         elif t == "table-key":
             if given:
                 out[p.name] = v
@@ -712,7 +716,7 @@ def byte_strings(rng, own, alphabet, maxlen=2, n_random=20, n_mut=16, small_cap=
         if len(idxs) > n_mut:
             idxs = sorted(rng.sample(idxs, n_mut))
         for i in idxs:
-            for nb in {0x00, 0xff, pdu[i] ^ 0x01, pdu[i] ^ 0x80, (pdu[i] + 1) & 0xff, rng.getrandbits(8)}:
+            for nb in {0x00, 0xff, pdu[i] ^ 0x01, pdu[i] ^ 0x80, (pdu[i] + 1) & 0xff, (pdu[i] + 2) & 0xff, (pdu[i] - 1) & 0xff, rng.getrandbits(8)}:
                 if nb != pdu[i]:
                     r = emit("mutation", pdu[:i] + bytes([nb]) + pdu[i + 1:], k)
                     if r:
